@@ -73,5 +73,5 @@ func main() {
 		[]string{
 			"'node' is the id registration: which object a re-registered id closes is an observation, not a violation",
 			"depth 7 (quick) / 8 (thorough); 2 event types, 2-3 pipeline ids, 4 node ids",
-		}, 150*time.Second, 45*time.Minute))
+		}, 300*time.Second, 45*time.Minute))
 }
